@@ -1,7 +1,6 @@
 package h
 
 import (
-	"sync"
 	"fmt"
 
 	"github.com/bilibili/gengine/engine"
@@ -58,16 +57,13 @@ type Req struct {
 	hidden int64 // unexported: a rule that returns it must fail (reflection cannot hand the value out)
 }
 
-// Grow appends to the slice a rule is ranging over (the loop must still end after the rounds it began with).
-func (r *Req) Grow() {
-	growMu.Lock()
-	if len(r.Sl) < 4096 {
-		r.Sl = append(r.Sl, 1)
-	}
-	growMu.Unlock()
-}
+// GrowObj is a fresh object per execution whose slice the rule ranges over while its body appends to it
+// (the loop must still end after the rounds it began with).
+type GrowObj struct{ Items []int64 }
 
-var growMu sync.Mutex
+func (g *GrowObj) Push() { g.Items = append(g.Items, 1) }
+
+func (h *H) NewGrow(r int64) *GrowObj { return &GrowObj{Items: []int64{1, 2, 3}} }
 
 type Resp struct {
 	Echo, Mark                     int64
